@@ -110,6 +110,8 @@ def pipeline(pid, tier, rep, extra_judges=()):
     for r_ in bcrun.run_parallel(jobs):
         gen_o += r_
 
+    # (the 80 KB function is left to C02/C04: judging its 40 000 code units takes one TLC process 35-50 minutes per version, and its
+    # line table has nothing that samples/sx_longcall.py does not have)
     samples = bcrun.ensure_samples(90)
     nmod = 10 if quick else 90
     files = bcrun.corpus_files() if pid == "C05" else [f for f in bcrun.corpus_files() if "bytecode_3.11" in f or "bytecode_3.12" in f or "bytecode_3.13" in f]
@@ -117,9 +119,9 @@ def pipeline(pid, tier, rep, extra_judges=()):
     for v, fl in samples.items():
         if pid == "C17" and v not in ("3.11", "3.12", "3.13"):
             continue
-        mine = bcrun.pick(fl, nmod, huge=not quick)
+        mine = bcrun.pick(fl, nmod, huge=False)
         files += mine
-        ojobs.append(lambda v=v, mine=mine: rec_ora(d, v, "files", bcrun.pick(mine, 6 if quick else 90, salt=5, huge=not quick), "f"))
+        ojobs.append(lambda v=v, mine=mine: rec_ora(d, v, "files", bcrun.pick(mine, 6 if quick else 90, salt=5, huge=False), "f"))
     val = rec_xdis(d, "files", files, "v")
     ora = []
     for r_ in bcrun.run_parallel(ojobs):
@@ -127,7 +129,7 @@ def pipeline(pid, tier, rep, extra_judges=()):
 
     def judge(recs, name):
         ok, err = bcrun.split_errors(recs)
-        rej, stats = lib.judge("LineTablesTrace", "LineTablesTrace", ok, name=name + "-" + pid, timeout=3000)
+        rej, stats = lib.judge("LineTablesTrace", "LineTablesTrace", ok, name=name + "-" + pid, timeout=7200)
         return ok, err, rej, stats
 
     for recs, name in ((ora, "ora"), (gen_o, "ora-gen")):
